@@ -4,7 +4,7 @@
    model under those choices.  The outcome of a scheduled repair cannot be forced reliably (a forced
    postcondition failure may be absorbed by the repair's own retries, and a repair can fail by itself),
    so that one choice is left to TLC: the observation has to match the model for SOME repair outcome. *)
-EXTENDS InsertTxnOps, Json, IOUtils
+EXTENDS InsertTxnRun, Json, IOUtils
 Chk(name, cond) == IF cond THEN TRUE ELSE PrintT(<<"CONTRACT-FAIL", name>>) /\ FALSE
 
 Rec == ndJsonDeserialize(IOEnv.TRACE)
